@@ -169,11 +169,24 @@ def check_C13(chk):
                     for L in shapes:
                         cases.append({"id": next(nid), "len": L, "nsend": att, "nrecv": 0, "nshm": att, "faults": p, "level": "platform"})
                 jobs.append((bins["default"], S, cases, "default", True))
+    # the same recovery with the attachment capacity reached (63 and 64 descriptors): a fall-through from the single-packet
+    # attempt needs one more slot for the dedicated channel
+    fpats = all_patterns(4) + ["".join(rng.choice("01") for _ in range(8)) for _ in range(300 if thorough else 40)]
+    for S in Svals:
+        shapes = F.shape_lengths(S)
+        cases = []
+        for (a, b, c) in ((32, 0, 32), (63, 0, 0), (31, 1, 32), (62, 0, 1)):
+            for p in fpats:
+                for L in shapes:
+                    cases.append({"id": next(nid), "len": L, "nsend": a, "nrecv": b, "nshm": c, "faults": p, "level": "platform"})
+        for lo in range(0, len(cases), 300):
+            jobs.append((bins["default"], S, cases[lo:lo + 300], "default", True))
     items = run_parallel(jobs)
     fails, bad = judge(chk, items, False, "c13", lambda it: "1" in it["case"].get("faults", ""))
     chk.coverage["exhaustive"] = True
     chk.coverage["rule"] = ("every ENOBUFS pattern over the first 10 transmission attempts (all 2^10) x 5 shapes (<=2000 B, one packet >2000 B, "
-                            "2, 3, 6 packets) x {no attachments, sender+region} x S in %s; shim fails exactly the attempts of the pattern; "
+                            "2, 3, 6 packets) x {no attachments, sender+region} x S in %s, plus 56..340 patterns x the same shapes with 63 and 64 attachments (capacity reached: "
+                            "a fall-through to fragmentation needs one more descriptor); shim fails exactly the attempts of the pattern; "
                             "non-trivial = at least one injected fault" % Svals)
     chk.coverage["input_distribution"] = dist(items)
     for it in [i for i in items if i["rec"] and i["rec"]["send"] != "Ok"][:2] + [i for i in items if "1" in i["case"]["faults"] and i["rec"] and i["rec"]["send"] == "Ok"][:3]:
@@ -204,6 +217,11 @@ def check_C15(chk):
             c = n - a - b
             for L in datas:
                 cases.append({"id": next(nid), "len": L, "nsend": a, "nrecv": b, "nshm": c, "level": "platform"})
+    # transient ENOBUFS around the limit (a single-packet message that falls through to fragmentation needs one more descriptor)
+    for n in (62, 63, 64, 65):
+        for L in datas + [2500]:
+            for p in ("1", "01", "11", "101"):
+                cases.append({"id": next(nid), "len": L, "nsend": n - n // 2, "nrecv": 0, "nshm": n // 2, "faults": p, "level": "platform"})
     # typed level around the limit
     for n in (62, 63, 64, 65, 66):
         for L in (10, cap + 100):
@@ -212,7 +230,7 @@ def check_C15(chk):
     for lo in range(0, len(cases), chunk):
         jobs.append((bins["default"], S, cases[lo:lo + chunk], "default", True))
     items = run_parallel(jobs)
-    fails, bad = judge(chk, items, lambda it: F.nfds_of(it["case"]) + (1 if F.wire_len(it["case"], it["rec"]) > cap else 0) <= 64,
+    fails, bad = judge(chk, items, lambda it: "1" not in it["case"].get("faults", "") and F.nfds_of(it["case"]) + (1 if F.wire_len(it["case"], it["rec"]) > cap else 0) <= 64,
                        "c15", lambda it: F.nfds_of(it["case"]) >= 58)
     chk.coverage["rule"] = ("attachment counts %s.. in sender/receiver/region mixtures %s x data lengths {0, small, one packet, +1, multi-packet} at S=4096 "
                             "(platform level) plus typed-level values with 62..66 attachments; non-trivial = 58 or more attachments" % (counts[:3], mixes))
